@@ -62,7 +62,7 @@ def decExt (j : Json) : R Ext := do
 def encPyResult (r : Except Err PV) : Json :=
   match r with
   | .ok v => Json.mkObj [("ok", encPV v)]
-  | .error (.missingExt f) => Json.mkObj [("fail", s!"no external result for {f}")]
+  | .error (.missingExt f) => Json.mkObj [("err", s!"no external result for {f}")]
   | .error e => Json.mkObj [("err", e.kind)]
 
 /-- `pyeval` op: fn, args, ext, depth, mode = value | env | vars (the return value and the final value of the
@@ -83,14 +83,14 @@ def opPyEval (j : Json) : R Json := do
       let uniq := names.foldl (fun acc n => if acc.contains n then acc else acc ++ [n]) []
       return Json.mkObj [("ok", Json.arr (uniq.map (fun n =>
         Json.arr #[Json.str n, encPV ((env.lookup n).getD .none)])).toArray)]
-    | .error (.missingExt f) => throw s!"no external result for {f}"
+    | .error (.missingExt f) => return Json.mkObj [("err", s!"no external result for {f}")]
     | .error e => return Json.mkObj [("err", e.kind)]
   | "vars" =>
     let vars ← strList (arrD j "vars")
     match callFn ext' f args, callFnEnv ext' f args with
     | .ok v, .ok env =>
       return Json.mkObj [("ok", Json.arr (#[encPV v] ++ (vars.map (fun n => encPV ((env.lookup n).getD .none))).toArray))]
-    | .error (.missingExt f), _ => throw s!"no external result for {f}"
+    | .error (.missingExt f), _ => return Json.mkObj [("err", s!"no external result for {f}")]
     | .error e, _ => return Json.mkObj [("err", e.kind)]
     | _, .error e => return Json.mkObj [("err", e.kind)]
   | _ =>
